@@ -246,14 +246,18 @@ def eval_expr(e: ast.AST, env: Callable[[ast.AST], object]) -> object:
         v = eval_expr(e.operand, env)
         return NOVALUE if v is NOVALUE else -v  # type: ignore[operator]
     if isinstance(e, ast.BoolOp):
-        vals = [eval_expr(v, env) for v in e.values]
-        if isinstance(e.op, ast.And):
-            if any(v is not NOVALUE and not v for v in vals):
-                return False
-            return NOVALUE if any(v is NOVALUE for v in vals) else vals[-1]
-        if any(v is not NOVALUE and v for v in vals):
-            return True
-        return NOVALUE if any(v is NOVALUE for v in vals) else vals[-1]
+        is_or = isinstance(e.op, ast.Or)
+        unknown = False
+        last: object = NOVALUE
+        for sub in e.values:
+            v = eval_expr(sub, env)
+            if v is NOVALUE:
+                unknown = True
+                continue
+            last = v
+            if bool(v) == is_or:  # short-circuit value
+                return v if not unknown else is_or
+        return NOVALUE if unknown else last
     if isinstance(e, ast.BinOp) and isinstance(e.op, (ast.Add, ast.Sub)):
         l, r = eval_expr(e.left, env), eval_expr(e.right, env)
         if l is NOVALUE or r is NOVALUE:
